@@ -115,7 +115,14 @@ def layout_records(kind, vs):
             aoff[i][j] = pos
             pos += K['asize']
     assert all(o is not None for o in eoff) and all(o is not None for row in aoff for o in row), 'record not placed'
-    assert all(c >= 1 for c in counts), 'entry without auxiliary'
+    # an entry may SHARE the head of another entry's auxiliary chain (share = [owner, count]): it has no records of its own, its aux
+    # displacement leads to the owner's first auxiliary and its count says how many of them belong to it
+    for i, e in enumerate(ents):
+        if e.get('share'):
+            k, cnt = e['share']
+            assert not e['aux'] and not ents[k].get('share') and 1 <= cnt <= counts[k] and aoff[k][0] > eoff[i], 'bad sharing in generator'
+            aoff[i] = aoff[k][:cnt]
+    assert all(len(row) >= 1 for row in aoff), 'entry without auxiliary'
     return pos, eoff, aoff
 
 
@@ -130,7 +137,7 @@ def encode_version_section(kind, le, vs, stroffs):
     buf = bytearray([fill]) * size
     exp = []
     for i, e in enumerate(ents):
-        n = len(e['aux'])
+        n = len(aoff[i])
         if kind == 'def':
             f = {'vd_version': e['version'], 'vd_flags': e['flags'], 'vd_ndx': e['ndx'], 'vd_cnt': n, 'vd_hash': e['hash']}
             name = None
@@ -150,6 +157,9 @@ def encode_version_section(kind, le, vs, stroffs):
             buf[aoff[i][j]:aoff[i][j] + K['asize']] = K['aenc'](le, g)
             auxs.append({'fields': g, 'name': a['name'], 'off': aoff[i][j]})
         exp.append({'fields': f, 'name': name, 'off': eoff[i], 'aux': auxs})
+    for i, e in enumerate(ents):
+        if e.get('share'):
+            exp[i]['aux'] = [dict(a) for a in exp[e['share'][0]]['aux'][:e['share'][1]]]
     tail = bytes((fill ^ (k * 37 + 1)) & 0xff for k in range(vs.get('tail', 0)))
     return bytes(buf) + tail, exp
 
@@ -754,6 +764,8 @@ def _register(ctx, case, info, data):
         if len(exp) >= 2 and not dense:
             nt = True
             ctx.count('noncontiguous.%s' % kind)
+        if any(e.get('share') for e in case[kind]['entries']):
+            ctx.count('shared-aux-chain.%s' % kind)
         if any(len(e['aux']) >= 2 for e in exp):
             ctx.count('multi-aux.%s' % kind)
         if kind == 'def':
@@ -923,6 +935,16 @@ def build_model(ch, tier, force=None):
             vals = ix
         case[kind] = {'strtab': ch.int(0, nstr - 1), 'entries': ents, 'place': gen_place(ch, counts, mode, PADS + [0x100, 0x1000] if big else PADS), 'mode': mode,
                       'tail': ch.choice([0, 0, 4, 20]), 'fill': alt(ch, [0xCC, 0x00, 0xFF, 0x01], lambda: ch.int(0, 255))}
+        owners = [k for k in range(n) if counts[k] >= 2]
+        if mode == 'entries_first' and n >= 2 and owners and 'counts' not in F and ch.bool(0.4):
+            # all entries precede all auxiliaries in this mode, so any entry can reach any chain with a forward displacement
+            k = ch.choice(owners)
+            i = ch.choice([x for x in range(n) if x != k])
+            ents[i]['aux'] = []
+            ents[i]['share'] = [k, ch.int(1, counts[k] - 1) if ch.bool(0.8) else counts[k]]
+            pl = [x for x in case[kind]['place'] if not (x[0] == i and x[1] >= 0)]
+            pl[0][2] = 0
+            case[kind]['place'] = pl
         case['queries'][kind] = gen_queries(ch, vals, full_q)
         roles.append(kind)
     nsym = F['nsym'] if 'nsym' in F else (ch.choice([0, 1, 2, 4, 8]) if ch.bool(0.6) else ch.int(0, 20))
@@ -1109,7 +1131,7 @@ def floors(ctx):
             'multi-aux.need', 'query.def.hit', 'query.def.miss', 'query.need.hit', 'query.need.miss',
             'query.def.hit-duplicate', 'query.need.hit-duplicate', 'hidden-index.def', 'hidden-index.need',
             'has_indexes.True', 'has_indexes.False', 'versym.ndx.named', 'versym.ndx.hidden', 'versym.ndx.plain', 'far.displacements',
-            'interleaved.def', 'interleaved.need']
+            'interleaved.def', 'interleaved.need', 'shared-aux-chain.def', 'shared-aux-chain.need']
     need += ['layout.%s.%s' % (k, m) for k in ('def', 'need') for m in MODES]
     for k in need:
         if c[k] == 0:
